@@ -149,7 +149,7 @@ class Ctx(object):
         import hypothesis
         from hypothesis import given, settings, HealthCheck, Phase
         phases = [Phase.generate, Phase.target]
-        if shrink:
+        if shrink and not os.environ.get('VERIF_NOSHRINK'):
             phases.append(Phase.shrink)
         st = settings(max_examples=max_examples, database=None, deadline=None,
                       derandomize=False, report_multiple_bugs=False,
